@@ -8,6 +8,7 @@ import Kvass.Pins.Sidecar
 import Kvass.Proofs.CoordScale
 import Kvass.Proofs.CoordNeed
 import Kvass.Proofs.CoordDown
+import Kvass.Proofs.SidecarIdle
 
 namespace Kvass.Props.C07
 open Kvass Kvass.Coord Kvass.Spec
@@ -266,5 +267,30 @@ theorem C07_keepsNeeded_spec (swr : Swr) (sc : Sched) (inp : Input)
     intro k hk
     exact C07_keepsNeeded swr sc inp hprod hn k hk
   · simp [hn]
+
+/-- **C07 (the idle-since instant, every history)**: scale-down trusts the instant a shard reports.
+    After *any* history of updates, scrapes and restarts of the sidecar model, the reported
+    instant `t` is a past clock value, the shard holds nothing now and held nothing after every
+    prefix of the history from `t` on, and — unless `t` is the start of the process — it did hold
+    something just before `t`: the time a shard is taken to have been idle is never longer than
+    the time its assignment has really been empty. -/
+theorem C07_idle_since_truthful (ph : Int) (ops : List Sidecar.Op) (t : Nat)
+    (h : (Sidecar.runtime ph (Sidecar.run ops).1).2.2 = some t) :
+    t ≤ ops.length ∧ (Sidecar.run ops).1.status = [] ∧
+    (∀ a b, ops = a ++ b → t ≤ a.length → (Sidecar.run a).1.status = []) ∧
+    (t = 0 ∨ (Sidecar.run (ops.take (t - 1))).1.status ≠ []) := by
+  have h' : (Sidecar.run ops).1.idleAt = some t := h
+  obtain ⟨h1, h2, h3⟩ := Sidecar.run_idleHist ops t h'
+  exact ⟨h1, h2 ops [] (by simp) h1, h2, h3⟩
+
+/-- and an instant is reported exactly while nothing is assigned -/
+theorem C07_idle_reported_iff (ph : Int) (ops : List Sidecar.Op) :
+    ((Sidecar.runtime ph (Sidecar.run ops).1).2.2).isSome = true ↔ (Sidecar.run ops).1.status = [] :=
+  (Sidecar.run_idleIff ops).symm
+
+/-- non-vacuity: the assignment is emptied by the fifth operation (clock value 5) and the restart
+    after it keeps the instant -/
+example : (Sidecar.runtime 0 (Sidecar.run [.update [⟨7, 10, 12, .normal, 0⟩], .scrape 7 (some (4, 6)), .scrape 7 none,
+    .update [⟨7, 10, 12, .inTransfer, 0⟩], .update [], .restart]).1).2.2 = some 5 := by decide
 
 end Kvass.Props.C07
